@@ -64,33 +64,35 @@ theorem duration_groupTexts (sg hd md : List Char) (hsg : sg = [] ∨ sg = ['-']
 
 end Rx
 
-theorem timeFind_of_spec (env : Env) (find : Str → List Str) (h : SubmatchSpec env Gen.rx_klog_timePattern 5 find) :
+theorem timeFind_of_spec (env : Env) (re : Re) (hre : ∀ env m, Matches env (mark re) m ↔ Matches env (mark Expect.time) m)
+    (find : Str → List Str) (h : SubmatchSpec env re 5 find) :
     TimeFind find := by
   refine ⟨?_, ?_⟩
   · intro lt hd m1 m2 ap gt hlen hdig h1 h2
     have hm := (Regexes.time_marked env _).2 ⟨lt, hd, m1, m2, ap, gt, hlen, hdig, h1, h2, rfl⟩
-    have hf := (h _).1 _ ((Rx.time_iff env _).2 hm) (RxM.erase_time_marked lt hd m1 m2 ap gt)
+    have hf := (h _).1 _ ((hre env _).2 hm) (RxM.erase_time_marked lt hd m1 m2 ap gt)
     rw [Rx.time_groupTexts] at hf
     exact hf
   · intro s hs
     refine (h s).2 ?_
     rintro ⟨m, hm, he⟩
-    obtain ⟨lt, hd, m1, m2, ap, gt, hlen, hdig, h1, h2, rfl⟩ := (Regexes.time_marked env m).1 ((Rx.time_iff env m).1 hm)
+    obtain ⟨lt, hd, m1, m2, ap, gt, hlen, hdig, h1, h2, rfl⟩ := (Regexes.time_marked env m).1 ((hre env m).1 hm)
     rw [RxM.erase_time_marked, RxM.codes_inj] at he
     exact hs env ((Regexes.time_shape env s).2 ⟨lt, hd, m1, m2, ap, gt, he.symm, hlen, hdig, h1, h2⟩)
 
-theorem durFind_of_spec (env : Env) (find : Str → List Str) (h : SubmatchSpec env Gen.rx_klog_durationPattern 5 find) :
+theorem durFind_of_spec (env : Env) (re : Re) (hre : ∀ env m, Matches env (mark re) m ↔ Matches env (mark Expect.duration) m)
+    (find : Str → List Str) (h : SubmatchSpec env re 5 find) :
     DurFind find := by
   refine ⟨?_, ?_⟩
   · intro sg hd md hsg hh hmd
     have hm := (Regexes.duration_marked env _).2 ⟨sg, hd, md, hsg, hh, hmd, rfl⟩
-    have hf := (h _).1 _ ((Rx.duration_iff env _).2 hm) (RxM.erase_duration_marked sg hd md)
+    have hf := (h _).1 _ ((hre env _).2 hm) (RxM.erase_duration_marked sg hd md)
     rw [Rx.duration_groupTexts sg hd md hsg] at hf
     exact hf
   · intro s hs
     refine (h s).2 ?_
     rintro ⟨m, hm, he⟩
-    obtain ⟨sg, hd, md, hsg, hh, hmd, rfl⟩ := (Regexes.duration_marked env m).1 ((Rx.duration_iff env m).1 hm)
+    obtain ⟨sg, hd, md, hsg, hh, hmd, rfl⟩ := (Regexes.duration_marked env m).1 ((hre env m).1 hm)
     rw [RxM.erase_duration_marked, RxM.codes_inj] at he
     exact hs env ((Regexes.duration_shape env s).2 ⟨sg, hd, md, he.symm, hsg, hh, hmd⟩)
 
